@@ -423,6 +423,20 @@ pub fn run(tape: &mut Tape, props: Props, p: &Params, trace_on: bool) -> Outcome
                 })?;
             }
             let fresh = [tape.draw(u64::MAX) | 1, tape.draw(u64::MAX) | 2];
+            // sometimes the application takes the socket out of the set and puts it back (a freed slot is reused and
+            // the per-socket bookkeeping of the interface - neighbour back-off, handle - starts afresh)
+            for i in 0..2 {
+                if tape.draw(3) == 0 {
+                    let h = st.apps[i].h;
+                    let sockets = &mut w.nodes[i].sockets;
+                    let h2 = guard("SocketSet::remove/add", || {
+                        let s = sockets.remove(h);
+                        sockets.add(s)
+                    })?;
+                    st.apps[i].h = h2;
+                    w.stats.inc("tcp.socket-removed-and-readded");
+                }
+            }
             for i in 0..2 {
                 let cap = 20 * st.apps[1 - i].rx_cap as u64 + 50;
                 let a = &mut st.apps[i];
@@ -799,6 +813,11 @@ fn service(w: &mut World, st: &mut St, n: usize, tape: &mut Tape) -> Result<(), 
             progressed = true;
         }
         if !did || rounds >= 50 {
+            break;
+        }
+        // the usual event loop shape: poll, socket calls, then straight to poll_at to decide how long to sleep
+        if tape.chance(1, 5) {
+            w.stats.inc("sched.sleep-decided-right-after-socket-calls");
             break;
         }
     }
